@@ -29,7 +29,7 @@ def utf8Chars (s : Bytes) : Bytes := s.filter (fun b => !(128 ≤ b && b < 192))
 def Permission.parse (s : Bytes) : Permission :=
   match Bytes.splitn 32 2 s with
   | [k] => { kinds := (utf8Chars k).map PermKind.ofByte, keys := [] }
-  | [k, ks] => { kinds := (utf8Chars k).map PermKind.ofByte, keys := Bytes.splitAll 44 ks }
+  | [k, ks] => { kinds := (utf8Chars k).map PermKind.ofByte, keys := (Bytes.splitAll 44 ks).filter (fun p => !p.isEmpty) }   -- an empty piece is no pattern
   | _ => { kinds := [.read], keys := [] }
 
 /-- `Permission::permissions_from_str` -/
